@@ -252,7 +252,7 @@ def read_library(d, compl):
 SKIP_TOKENS = ('zoo', 'class', 'nan')
 
 
-def check_library(d, compl, rng, npts=6, maxdraw=60, stats=None):
+def check_library(d, compl, rng, npts=6, maxdraw=60, stats=None, family=True):
     """Items 1-4 of LIB-SOUND.  Returns list of problem tuples."""
     stats = stats if stats is not None else {}
     lib = read_library(d, compl)
@@ -300,6 +300,9 @@ def check_library(d, compl, rng, npts=6, maxdraw=60, stats=None):
             stats['nan_chains'] += 1
             if not ku < kf:
                 probs.append(('nan-without-fewer-params', i, f, u, subs[i]))
+            elif family and not any(t in f for t in SKIP_TOKENS) and not any(t in u for t in SKIP_TOKENS):
+                if same_family(f, u, rng, stats=stats) is False:
+                    probs.append(('not-same-family', i, f, u))
             continue
         if chain:
             stats['mapped'] += 1
@@ -359,6 +362,142 @@ def classify(probs):
     if not hard:
         return None
     p = hard[0]
-    if p[0] in ('map-mismatch', 'nan-without-fewer-params'):
+    if p[0] in ('map-mismatch', 'nan-without-fewer-params', 'not-same-family'):
         return 'lib-unsound:%s:%s' % (p[0], p[2])
     return 'lib-unsound:%s' % p[0]
+
+
+# ------------------------------------------------------------------------------------------
+# item 5: "same family" for unrecoverable maps (unique has strictly fewer parameters)
+# ------------------------------------------------------------------------------------------
+_np_cache = {}
+_family_cache = {}
+
+
+def _np_ns():
+    import numpy as np
+
+    def apow(a, b):
+        return np.power(np.abs(a), b)
+    return {'pow': apow, 'Abs': np.abs, 'exp': np.exp, 'log': lambda a: np.log(np.abs(a)), 'sqrt': lambda a: np.sqrt(np.abs(a)),
+            'sin': np.sin, 'cos': np.cos, 'sign': np.sign, 'inv': lambda a: 1.0 / a, 'square': lambda a: a * a,
+            'cube': lambda a: a * a * a, 'sqrt_abs': lambda a: np.sqrt(np.abs(a)), 'log_abs': lambda a: np.log(np.abs(a)),
+            'log10_abs': lambda a: np.log10(np.abs(a)), 'tenexp': lambda a: np.power(10.0, a), 'nan': np.nan, 'zoo': np.inf,
+            'oo': np.inf, 'E': np.e, 'pi': np.pi, 'mpf': float, '_spow': lambda a, b: np.power(a + 0j, b) if np.any(np.asarray(a) < 0) else np.power(a, b)}
+
+
+def _np_eval(s, env):
+    import numpy as np
+    code = _np_cache.get(s)
+    if code is None:
+        try:
+            code = _compile(s)
+        except Exception:
+            code = False
+        _np_cache[s] = code
+    if code is False:
+        return None
+    e = _np_ns()
+    e.update(env)
+    try:
+        with np.errstate(all='ignore'):
+            v = eval(code, {'__builtins__': {}}, e)
+        v = np.asarray(v)
+        if np.iscomplexobj(v):
+            if np.any(np.abs(v.imag) > 1e-12 * (1 + np.abs(v.real))):
+                return None
+            v = v.real
+        v = np.broadcast_to(v.astype(float), env['x'].shape).copy()
+    except Exception:
+        return None
+    return v
+
+
+def same_family(f, u, rng, nsamples=5, stats=None):
+    """Forward direction of 'both describe the same family of curves': for sampled parameters of f there are
+    parameters of u with u(.;phi) = f(.;theta) on 8 abscissae.  Returns True / False / None (inconclusive).
+    False only if ALL of >= nsamples valid samples fail from every start (candidate combinations of theta,
+    then random multi-start Levenberg-Marquardt)."""
+    import numpy as np
+    from scipy.optimize import least_squares
+    key = (f, u)
+    if key in _family_cache:
+        return _family_cache[key]
+    kf, ku = nparams(f), nparams(u)
+    xs = np.array([0.37, 0.61, 0.93, 1.21, 1.58, 1.97, 2.44, 2.89])
+    fails = valid = 0
+    verdict = None
+    for _ in range(4 * nsamples):
+        th = [rng.choice([-1, 1]) * rng.uniform(0.4, 2.5) for _ in range(kf)]
+        y = _np_eval(f, dict({'a%d' % j: th[j] for j in range(kf)}, x=xs))
+        if y is None or not np.all(np.isfinite(y)) or np.max(np.abs(y)) > 1e8:
+            continue
+        valid += 1
+        scale = 1.0 + np.abs(y)
+
+        def resid(phi):
+            v = _np_eval(u, dict({'a%d' % j: phi[j] for j in range(ku)}, x=xs))
+            if v is None or not np.all(np.isfinite(v)):
+                return np.full(len(xs), 1e6)
+            return (v - y) / scale
+        ok = False
+        if ku == 0:
+            ok = float(np.max(np.abs(resid([])))) < 1e-9
+        else:
+            cands = set()
+            base = list(th) + [1.0, 2.0, 0.5, 3.0]
+            for a in base:
+                for g in (a, -a, 1 / a if a else 1.0, a * a, abs(a) ** 0.5, np.exp(a), np.log(abs(a)) if a else 0.0, a ** 3, 10.0 ** a if abs(a) < 5 else 1.0):
+                    cands.add(round(float(g), 12))
+            for a in th:
+                for b in th:
+                    if a is b:
+                        continue
+                    for g in (a + b, a - b, a * b, a / b, abs(a) ** b, abs(a) * b, a / abs(b), a + abs(b), abs(a) + abs(b), abs(a) * abs(b),
+                              abs(a) - abs(b), abs(a) / abs(b)):
+                        if np.isfinite(g):
+                            cands.add(round(float(g), 12))
+            if kf >= 3:
+                cands.add(round(float(sum(th)), 12))
+                cands.add(round(float(np.prod(th)), 12))
+            cands = sorted(c for c in cands if np.isfinite(c) and abs(c) < 1e6)
+            import itertools
+            starts = []
+            if ku == 1:
+                starts = [[c] for c in cands]
+            else:
+                pick = cands[:40] if len(cands) > 40 else cands
+                starts = [list(t) for t in itertools.islice(itertools.product(pick, repeat=ku), 4000)]
+                rng.shuffle(starts)
+                starts = starts[:400]
+            starts += [[rng.choice([-1, 1]) * 10 ** rng.uniform(-1, 1) for _ in range(ku)] for _ in range(30)]
+            best = np.inf
+            # cheap screening first, then refine the most promising starts
+            scored = sorted(((float(np.max(np.abs(resid(s_)))), s_) for s_ in starts), key=lambda t: t[0])
+            for r0, s_ in scored[:25]:
+                if r0 < 1e-9:
+                    ok = True
+                    break
+                try:
+                    sol = least_squares(resid, s_, method='lm', xtol=1e-14, ftol=1e-14, max_nfev=200)
+                    r1 = float(np.max(np.abs(sol.fun)))
+                except Exception:
+                    continue
+                best = min(best, r1)
+                if r1 < 1e-7:
+                    ok = True
+                    break
+        if not ok:
+            fails += 1
+        else:
+            verdict = True
+            break
+        if valid >= nsamples:
+            break
+    if verdict is None:
+        verdict = False if (valid >= nsamples and fails == valid) else None
+    _family_cache[key] = verdict
+    if stats is not None:
+        k = 'family_ok' if verdict else ('family_fail' if verdict is False else 'family_inconclusive')
+        stats[k] = stats.get(k, 0) + 1
+    return verdict
